@@ -15,3 +15,95 @@ def pilot_async(seed, nsteps=12, tie=False):
     d = rt.episode_record_to_dict(rec)
     t2 = time.time()
     return dict(spec=spec, feats=sorted(rt.spec_features(spec)), warm=t1 - t0, ep=t2 - t1, nsteps={k: v["n"] for k, v in d.items()})
+
+
+def async_case(seed, nsteps=10, tie=False, api=None, neps=1):
+    """One random graph: run `neps` async episodes, return the real records + the machine cfg for the Lean model."""
+    rng = random.Random(seed)
+    spec = rt.rand_spec(rng, tie_stream=tie)
+    run = rt.AsyncRun(spec)
+    out = dict(spec=spec, feats=sorted(rt.spec_features(spec)), episodes=[])
+    for e in range(neps):
+        a = api or rng.choice(["run", "step"])
+        rec, obs, gs = run.episode(nsteps, eps=e, api=a)
+        d = rt.episode_record_to_dict(rec)
+        counts = {k: v["n"] for k, v in d.items()}
+        cfg = rt.machine_cfg(run, counts, user_steps=nsteps)
+        out["episodes"].append(dict(api=a, record=d, cfg=cfg, obs=obs))
+    return out
+
+
+class Perturb:
+    """Controller for the REX_VERIF gates: delays tasks at their start according to a policy (seeded)."""
+
+    def __init__(self, policy, seed, target=None):
+        import threading
+
+        self.policy, self.target = policy, target
+        self.rnd = random.Random(seed)
+        self.lock = threading.Lock()
+        self.n = 0
+
+    def __call__(self, name, ctx):
+        if name != "task_start":
+            return
+        owner = ctx["owner"]
+        is_conn = hasattr(owner, "connection")
+        label = (owner.connection.output_node.name + "->" + owner.connection.input_node.name) if is_conn else owner.node.name
+        fn = ctx["fn"]
+        p = self.policy
+        d = 0.0
+        if p == "random":
+            with self.lock:
+                d = self.rnd.random() * 0.002 if self.rnd.random() < 0.5 else 0.0
+        elif p == "slow_conns":
+            d = 0.0015 if is_conn else 0.0
+        elif p == "slow_nodes":
+            d = 0.0015 if not is_conn else 0.0
+        elif p == "starve":
+            d = 0.004 if label == self.target else 0.0
+        elif p == "slow_ts_input":
+            d = 0.003 if fn == "push_ts_input" else 0.0
+        elif p == "slow_step":
+            d = 0.003 if fn == "push_step" else 0.0
+        elif p == "slow_sched":
+            d = 0.003 if fn in ("push_scheduled_ts", "push_phase_shift") else 0.0
+        self.n += 1
+        if d > 0:
+            time.sleep(d)
+
+
+def async_schedules(seed, nsteps=10, tie=False, variants=None):
+    """One graph state, several executions of the same episode under different thread schedules, real-time factors
+    and driving APIs. Returns all records and the machine configuration."""
+    import sys
+
+    from rex import _verif
+
+    rng = random.Random(seed)
+    spec = rt.rand_spec(rng, tie_stream=tie)
+    run = rt.AsyncRun(spec)
+    labels = [n["name"] for n in spec["nodes"]] + [f"{c['src']}->{c['dst']}" for c in spec["conns"]]
+    if variants is None:
+        variants = [dict(policy="none", rtf=0, api="run"), dict(policy="random", rtf=0, api="step"), dict(policy="slow_conns", rtf=0, api="run"),
+                    dict(policy="slow_nodes", rtf=0, api="step"), dict(policy="starve", rtf=0, api="run", target=rng.choice(labels)),
+                    dict(policy="slow_ts_input", rtf=0, api="run"), dict(policy="none", rtf=20, api="step"), dict(policy="switch", rtf=0, api="run")]
+    out = dict(spec=spec, feats=sorted(rt.spec_features(spec)), variants=[], cfg=None)
+    old_si = sys.getswitchinterval()
+    counts = {n["name"]: 0 for n in spec["nodes"]}
+    for e, v in enumerate(variants):
+        ctl = Perturb(v["policy"], seed * 1000 + e, v.get("target"))
+        _verif.set_controller(ctl if v["policy"] not in ("none", "switch") else None)
+        sys.setswitchinterval(1e-6 if v["policy"] == "switch" else old_si)
+        run.graph.real_time_factor = v["rtf"]
+        try:
+            rec, obs, gs = run.episode(nsteps, eps=0, api=v["api"])
+        finally:
+            _verif.set_controller(None)
+            sys.setswitchinterval(old_si)
+        d = rt.episode_record_to_dict(rec)
+        out["variants"].append(dict(variant=v, record=d, obs=obs, gated=ctl.n))
+        for k in d:
+            counts[k] = max(counts[k], d[k]["n"])
+    out["cfg"] = rt.machine_cfg(run, counts, user_steps=nsteps)
+    return out
